@@ -79,16 +79,20 @@ def decode_plain(data: bytes):
 
 
 class FakeSocket:
-    def __init__(self):
+    def __init__(self, fault=None):
         self.closed = False
+        self.fault = fault     # "setsockopt" | "getpeername": that call raises OSError (the peer reset right after accept)
 
     def setblocking(self, _):
         pass
 
     def setsockopt(self, *a):
-        pass
+        if self.fault == "setsockopt":
+            raise OSError(22, "Invalid argument")
 
     def getpeername(self):
+        if self.fault == "getpeername":
+            raise OSError(107, "Transport endpoint is not connected")
         return ("10.0.0.1", 6053)
 
     def getsockname(self):
@@ -196,7 +200,7 @@ class Net:
             fut = self.loop.create_future()
             self.sock_futs.append(fut)
             await fut
-        s = FakeSocket()
+        s = FakeSocket(getattr(self, "sock_fault", None))
         self.sockets.append(s)
         return s
 
